@@ -286,6 +286,18 @@ static int body_H(fibre_t *f)
 	PT_BEGIN_FIBRE(f);
 	for (;;) {
 		note_dispatch(FH);
+		{
+			/* if the queue says "not empty", the one receiver must get a message */
+			bool was_empty = fibre_eventq_empty(&evH);
+			e = fibre_eventq_receive(&evH);
+			if (!was_empty && !e)
+				viol("event", "eventq_empty-false-but-receive-null", "fibre_eventq_empty returned false and the following receive returned nothing");
+			if (e) {
+				got_event(e);
+				shim_harness_point();
+				fibre_eventq_release(&evH, e);
+			}
+		}
 		while ((e = fibre_eventq_receive(&evH)) != NULL) {
 			got_event(e);
 			shim_harness_point();
